@@ -1132,28 +1132,28 @@ class LanguageGraph():
         A dictionary representing the step expressions for the specified variable.
         """
 
-        asset = next((asset for asset in self._lang_spec['assets'] if asset['name'] == \
-            asset_type), None)
-        if not asset:
-            msg = 'Failed to find asset type %s when looking for variable.'
-            logger.error(msg, asset_type)
-            raise LanguageGraphException(msg % asset_type)
+        # Look in the asset itself first, then in its ancestors (a loop, the
+        # inheritance chain can be longer than the recursion limit allows)
+        current_asset_type = asset_type
+        while True:
+            asset = next((asset for asset in self._lang_spec['assets'] \
+                if asset['name'] == current_asset_type), None)
+            if not asset:
+                msg = 'Failed to find asset type %s when looking for variable.'
+                logger.error(msg, current_asset_type)
+                raise LanguageGraphException(msg % current_asset_type)
 
-        variable_dict = next((variable for variable in \
-            asset['variables'] if variable['name'] == variable_name), None)
-        if not variable_dict:
-            if asset['superAsset']:
-                variable_dict = self._get_variable_for_asset_type_by_name(asset['superAsset'],
-                                                       variable_name)
+            variable_dict = next((variable for variable in \
+                asset['variables'] if variable['name'] == variable_name), None)
             if variable_dict:
-                return variable_dict
-            else:
+                return variable_dict['stepExpression']
+
+            if not asset['superAsset']:
                 msg = 'Failed to find variable %s in %s lang specification.'
                 logger.error(msg, variable_name, asset_type)
                 raise LanguageGraphException(
                     msg % (variable_name, asset_type))
-
-        return variable_dict['stepExpression']
+            current_asset_type = asset['superAsset']
 
     def regenerate_graph(self) -> None:
         """
